@@ -44,7 +44,7 @@ ASSUMPTIONS = [
     "qp.evolve(H, t): t is a scalar (never the broadcast argument) and not traced by jax.jit; Evolution documents that it 'may not be "
     "differentiable' and its has_generator / generator test the concrete value of the coefficient.",
 ]
-BUDGET = {"quick": {"examples": 330, "min_nontrivial": 40}, "thorough": {"examples": 24000, "shards": 16, "min_nontrivial": 500}}
+BUDGET = {"quick": {"examples": 270, "min_nontrivial": 40}, "thorough": {"examples": 24000, "shards": 16, "min_nontrivial": 500}}
 SHRINK_LISTS = ("ops", "meas")
 
 # ------------------------------------------------------------------------------------------------ gate pool
@@ -105,6 +105,12 @@ def _program(draw, tier):
     names = sorted(g for g, (_, k, _) in POOL.items() if k <= n)
     fixed = sorted(g for g, k in FIXED.items() if k <= n)
     ops = []
+    if draw(st.integers(0, 7)) > 0:
+        # constant scrambling prefix: a generic product state (plus entanglement), so that later gates and observables matter
+        for k, w in enumerate(wires):
+            ops.append({"op": "U3", "p": [["const", round(0.9 + 0.37 * k, 3)], ["const", round(0.5 - 0.21 * k, 3)], ["const", round(0.3 + 0.13 * k, 3)]], "w": [w]})
+        if n >= 2 and draw(st.booleans()):
+            ops += [{"op": "CNOT", "p": [], "w": [wires[k], wires[k + 1]]} for k in range(n - 1)]
     for _ in range(draw(st.integers(1, 8 if tier == "thorough" else 6))):
         kind = draw(st.sampled_from(["pool"] * 10 + ["fixed"] * 4 + ["multirz", "paulirot", "adjoint", "ctrl", "evolve", "pow"]))
         if kind == "pool":
@@ -183,21 +189,42 @@ METHODS = ["backprop", "parameter-shift", "parameter-shift", "ps-broadcast", "ad
 
 
 @st.composite
-def _config(draw, tier):
+def _config(draw, tier, prog):
+    kinds = {m["mp"] for m in prog["meas"]}
+    batched = hybrid.batch_size(prog) is not None
+    # methods that are expected to accept this program (a 15% share of arbitrary picks keeps the rejection paths exercised)
+    likely = ["backprop"]
+    if not batched:
+        likely += ["parameter-shift", "parameter-shift", "ps-broadcast", "finite-diff", "finite-diff", "spsa"]
+    if kinds == {"expval"}:
+        likely += ["adjoint", "adjoint"]
+        if not batched:
+            likely += ["hadamard", "hadamard", "hadamard", "hadamard"]
+    elif "var" not in kinds and not batched:
+        likely += ["hadamard"]
+    wild = draw(st.integers(0, 6)) == 0
+    m = draw(st.sampled_from(METHODS if wild else likely))
     iface = draw(st.sampled_from(["autograd"] * 8 + ["torch"] * 7 + ["jax"] * 6 + ["jax-jit"] * (1 if tier == "quick" else 3)))
-    m = draw(st.sampled_from(METHODS))
-    cfg = {"iface": iface, "method": m, "gk": {}, "goe": draw(st.sampled_from(["best", "best", "best", False, True])),
-           "dvjp": draw(st.sampled_from([False, False, False, True])),
+    transform = m not in ("backprop", "adjoint")
+    cfg = {"iface": iface, "method": m, "gk": {},
+           "goe": draw(st.sampled_from(["best", "best", "best", False, True] if (wild or not transform) else ["best", "best", False])),
+           "dvjp": draw(st.sampled_from([False, False, False, True])) if (wild or m == "backprop") else False,
            "post": draw(st.sampled_from(["stack", "raw"])) if iface != "autograd" else "stack",
            "jac": draw(st.sampled_from(["rev", "rev", "fwd"])) if iface == "jax" else "rev",
            "devwires": draw(st.sampled_from(["none", "exact", "spare"]))}
     if m == "adjoint":
         cfg["dvjp"] = draw(st.booleans())
     if m == "hadamard":
-        mode = draw(st.sampled_from(["standard", "reversed", "direct", "reversed-direct", "auto"]))
+        modes = ["standard", "reversed", "direct", "reversed-direct", "auto"]
+        if not wild:
+            if "probs" in kinds:
+                modes = ["standard", "auto"]
+            elif len(prog["meas"]) > 1:
+                modes = ["standard", "direct", "auto"]
+        mode = draw(st.sampled_from(modes))
         cfg["mode"] = mode
         cfg["alias"] = draw(st.booleans())  # select the mode by diff_method name instead of gradient_kwargs
-        cfg["aux"] = draw(st.sampled_from(["explicit", "explicit", "none"]))
+        cfg["aux"] = draw(st.sampled_from(["explicit", "explicit", "explicit", "none"])) if (wild or mode not in ("standard", "reversed")) else "explicit"
         if cfg["aux"] == "explicit":
             cfg["devwires"] = draw(st.sampled_from(["none", "spare"]))
     if m == "finite-diff":
@@ -206,12 +233,12 @@ def _config(draw, tier):
             {"h": 1e-2, "approx_order": 2, "strategy": "center"}, {"h": 1e-3, "strategy": "backward"}, {"h": 1e-2, "approx_order": 2, "strategy": "backward"},
             {"h": 2e-2, "approx_order": 4, "strategy": "center"}, {"h": 1e-3, "approx_order": 1, "strategy": "center"}]))
     if m == "spsa":
-        cfg["gk"] = {"num_directions": 120 if tier == "quick" else 1000, "sampler_rng": draw(st.integers(0, 10**6))}
+        cfg["gk"] = {"num_directions": 60 if tier == "quick" else 1000, "sampler_rng": draw(st.integers(0, 10**6))}
     return cfg
 
 
 def strategy(tier):
-    return st.tuples(_program(tier), _config(tier)).map(lambda t: {"prog": t[0], "cfg": t[1]})
+    return _program(tier).flatmap(lambda p: _config(tier, p).map(lambda c: {"prog": p, "cfg": c}))
 
 
 # ------------------------------------------------------------------------------------------------ running a configuration
@@ -452,9 +479,11 @@ def check(spec):
             why = _other_rejection(e, prog, cfg, B)
         if why is not None:
             raise Reject(f"{m}: {why}"[:80]) from None
-        if not fresh.confirm(ID, spec, ("exc", type(e).__name__, str(e)[:60])):
-            raise Reject("exception not reproduced in a fresh process (state left by an earlier case)") from None
-        raise
+        try:  # an exception must be reproducible: state left behind by an earlier traced case is not a finding
+            run_jacobian(prog, cfg)
+        except Exception:  # noqa: BLE001
+            raise e from None
+        raise Reject("exception not reproduced on a second evaluation (state left by an earlier case)") from None
 
     def viol(clause, detail, vsig):
         if not fresh.confirm(ID, spec, (clause, vsig)):
